@@ -269,7 +269,7 @@ ADDENDA9 = {
  "C06": "Also: the mount-table insertion is a LoadOrStore; file-system values are compared only under recover; the cross-mount copy runs only between different file systems.",
  "C07": "Also: no substring test for '..' on names (a view refuses exactly what its parent refuses).",
  "C08": "Also: an exported helper answers success only after asking the file system or a handle, and dispatches to its own operation's interface only.",
- "C09": "Also: the error translator returns an error untranslated only for reasons in the error; the reverse mapping never cleans.",
+ "C09": "Also: the error translator returns an error untranslated only for reasons in the error; the reverse mapping never cleans; directory entries handed out are wrapped so that Info() errors are translated.",
  "C10": "Also: the retention policy is asked about the name that was opened.",
  "C14": "Also: attribute setters of the handle answer success only after save(); an error produced in a loop iteration is examined in that iteration.",
  "C18": "Also: a Set of the in-memory store writes no record it did not allocate.",
